@@ -1030,6 +1030,19 @@ class Flow(NLRI):
         self._packed_stale = True  # Mark packed as stale after modification
         return True
 
+    def family_error(self) -> str:
+        """Name a component which does not exist for the address family of this rule.
+
+        flow-label, next-header, traffic-class are IPv6 only (RFC 8956), protocol and dscp IPv4
+        only (RFC 8955): a type 13 component inside an IPv4 NLRI is undefined on the wire.
+        """
+        marker = FlowIPv4 if self.afi == AFI.ipv4 else FlowIPv6
+        for rules in self.rules.values():
+            for rule in rules:
+                if not isinstance(rule, marker):
+                    return f"'{rule.NAME}' is not a valid component of an {self.afi} flow route"
+        return ''
+
     def _encode_length(self, components: Buffer) -> Buffer:
         """Encode length prefix for wire format."""
         lc = len(components)
